@@ -384,21 +384,27 @@ class Interp:
         rows = []
         whole = None
         if self.peek()[0] == "LBRACE":
-            # whole-array parameter {w} with a declared shape
+            # whole-array parameter {w} (unindented form of the grammar) with a declared shape
             self.next()
             whole = self.expect("NAME")[1]
             self.expect("RBRACE")
         else:
+            bare = []
             while self.peek()[0] == "TAB":
                 self.next()
                 row = []
                 while True:
                     sl = self.collect_expr(("COMMA",))
+                    bare.append(sl[1][1] if [t[0] for t in sl] == ["LBRACE", "NAME", "RBRACE"] else None)
                     row.append(self.eval_expr(sl))
                     if not self.accept("COMMA"):
                         break
                 self.expect("NEWLINE")
                 rows.append(row)
+            if len(bare) == 1 and bare[0] is not None:
+                # a body that consists of one bare {w} denotes a whole-array parameter (needs a declared shape)
+                whole = bare[0]
+                self.prog.parameters.discard(whole)
         if whole is not None:
             if shape is None or len(shape) != 2:
                 raise Reject("shape", name)
@@ -785,6 +791,9 @@ class SymFactory:
             if name not in self.pcache:
                 self.pcache[name] = T.V("float", z3.Real("par_" + name))
             return self.pcache[name]
+        if name not in self.parvals:
+            # concrete comparison of templates: a fixed generic value per parameter name
+            self.parvals[name] = 0.37 + 0.61 * len(self.parvals)
         return self.parvals[name]
 
     def reg(self, n):
@@ -793,4 +802,6 @@ class SymFactory:
             if n not in self.rcache:
                 self.rcache[n] = T.V("float", z3.Real("reg_%d" % n))
             return self.rcache[n]
+        if n not in self.regvals:
+            self.regvals[n] = 0.83 + 0.29 * len(self.regvals)
         return self.regvals[n]
